@@ -1641,6 +1641,65 @@ def module_generators(tree):
         isinstance(n, (ast.Yield, ast.YieldFrom)) for n in ast.walk(s_))}
 
 
+def _zero_arg_gen_defs(fn):
+    """def g(): for A in X: for B in Y: yield E    ...   f(g())      ->      f((E for A in X for B in Y))
+    (the call is the sole argument of another call: created and consumed on the spot)"""
+    for scope in [n for n in ast.walk(fn) if isinstance(n, FuncTypes)]:
+        for blk in _all_blocks(scope):
+            for st in list(blk):
+                if not (isinstance(st, FuncTypes) and not st.decorator_list and not st.args.args and not st.args.vararg
+                        and not st.args.kwarg and not st.args.kwonlyargs):
+                    continue
+                body = docstring_free(st.body)
+                gens = []
+                cur = body
+                elt = None
+                while len(cur) == 1 and isinstance(cur[0], ast.For) and not cur[0].orelse and len(gens) < 4:
+                    gens.append((cur[0].target, cur[0].iter))
+                    cur = cur[0].body
+                if gens and len(cur) == 1 and isinstance(cur[0], ast.Expr) and isinstance(cur[0].value, ast.Yield) \
+                        and cur[0].value.value is not None:
+                    elt = cur[0].value.value
+                if elt is None:
+                    continue
+                calls = [n for n in ast.walk(scope) if isinstance(n, ast.Call) and isinstance(n.func, ast.Name)
+                         and n.func.id == st.name]
+                loads = [n for n in ast.walk(scope) if isinstance(n, ast.Name) and n.id == st.name and isinstance(n.ctx, ast.Load)]
+                same = [n for n in ast.walk(scope) if isinstance(n, FuncTypes) and n.name == st.name]
+                after = blk[blk.index(st) + 1:]
+                if not calls or len(calls) != len(loads) or len(same) != 1 or any(c.args or c.keywords for c in calls):
+                    continue
+                if not all(any(c is x for s_ in after for x in ast.walk(s_)) for c in calls):
+                    continue
+                # every call is the only argument of an enclosing call
+                parents_ok = True
+                for c in calls:
+                    holder = [n for n in ast.walk(scope) if isinstance(n, ast.Call) and len(n.args) == 1 and n.args[0] is c
+                              and not n.keywords]
+                    if not holder:
+                        parents_ok = False
+                if not parents_ok:
+                    continue
+                ids = {id(c) for c in calls}
+                comp_src = [(ast.unparse(t), ast.unparse(i)) for t, i in gens]
+                elt_src = ast.unparse(elt)
+
+                class _Rep(ast.NodeTransformer):
+                    def visit_Call(self, node):
+                        self.generic_visit(node)
+                        if id(node) in ids:
+                            return ast.GeneratorExp(
+                                elt=ast.parse(elt_src, mode="eval").body,
+                                generators=[ast.comprehension(target=ast.parse(t + " = 0").body[0].targets[0],
+                                                              iter=ast.parse(i, mode="eval").body, ifs=[], is_async=0)
+                                            for t, i in comp_src])
+                        return node
+                blk.remove(st)
+                for i_, s_ in enumerate(scope.body):
+                    scope.body[i_] = _Rep().visit(s_)
+    return fn
+
+
 def _gen_defs_to_genexps(fn):
     """def g(p): for T in p: yield E   ...   g(iter(X))      ->      (E for T in X)
     (both call iter(X) on the spot and evaluate E lazily in the enclosing scope)"""
@@ -1806,6 +1865,7 @@ def canonical_ast(fn, helpers, methods=None, hier=None, segment=False):
             return node
     f = _Beta().visit(f)
     _gen_defs_to_genexps(f)
+    _zero_arg_gen_defs(f)
     ast.fix_missing_locations(f)
     f.body = docstring_free(f.body)
     _ssa_toplevel(f)
